@@ -26,7 +26,10 @@ CLAIMED = {
          "S = -dF/dT and C_V = T dS/dT by mechanical differentiation of the extracted terms, C_V >= 0, the reduction of C_V <= k_B to sinh(y) >= y, the KB constant "
          "against units.Kb, finiteness of every result in an IEEE special-value model (exp/sinh/cosh overflow, inf*0, inf/inf), and the mesh kernel "
          "phpy_get_thermal_properties against the weighted double sum over q-points and bands above the cutoff (six nested loops with quantified invariants, "
-         "frame, bounds), for all array sizes and contents.",
+         "frame, bounds), for all array sizes and contents. Python drivers around the kernel: ThermalProperties._run_c_thermal_properties (the kernel is called exactly once, on a "
+         "fresh zero array, with this object's temperatures, whole frequency and weight arrays, cut-off and statistics flag; reported F, S, C_V == kernel sums / sum(weights) * "
+         "EvTokJmol (+ zero-point energy, * 1000) on a generic temperature row), run_free_energy / run_entropy / run_heat_capacity (mode function by the sign of t, normalisation) "
+         "and _run_py_thermal_properties.",
     note=TRUST + "Rounding error is ignored (the special-value model covers overflow/underflow and NaN generation only). AX-SINH / AX-TANH and the T->0, T->infinity "
          "limits are cited, not decided. Finding E5 (NaN at low temperature) was repaired in /repo (fix: commit) and is checked unrestricted.",
     technique="deductive verification: symbolic-execution VC generation with loop invariants + z3/sympy; special-value model for finiteness",
@@ -62,8 +65,8 @@ CLAIMED = {
     design="DESIGN.md section 5 C20"),
 
  "C04": dict(
-    text="phonopy/structure/cells.py by symbolic execution with the 3x3 numpy mini-model: Supercell._create_supercell for the classic and the Smith-normal-form path with a symbolic integer supercell matrix S and lattice L: the lattice handed to PhonopyAtoms (through _get_simple_supercell, _trim_cell, TrimmedCell._run) equals S^T L element by element (exact rational identities); Supercell._get_simple_supercell: symbols, masses, magnetic moments and the atom map are the unit-cell lists replicated by one and the same index function; TrimmedCell._run: positions, symbols, masses, magnetic moments and extracted_atoms are reordered by the same index array (index-function tags on abstracted per-atom arrays).",
-    note=TRUST + "NOT decided: atom counts and uniqueness of the trimmed cell, SNF elementary steps, primitive-cell index maps, tolerance geometry. SNF3x3 is assumed to return a unimodular P. Finding E3 (S L instead of S^T L on the SNF path) repaired by a fix: commit.",
+    text="phonopy/structure/cells.py by symbolic execution with the 3x3 numpy mini-model: Supercell._create_supercell for the classic and the Smith-normal-form path with a symbolic integer supercell matrix S and lattice L: the lattice handed to PhonopyAtoms (through _get_simple_supercell, _trim_cell, TrimmedCell._run) equals S^T L element by element (exact rational identities); Supercell._get_simple_supercell: symbols, masses, magnetic moments and the atom map are the unit-cell lists replicated by one and the same index function; TrimmedCell._run: positions, symbols, masses, magnetic moments and extracted_atoms are reordered by the same index array (index-function tags on abstracted per-atom arrays). Smith-normal-form lattice points: for two generic points l1, l2 of the D-box and a generic atom x the positions handed to PhonopyAtoms satisfy P S (pos(l2) - pos(l1)) == det(P) (l2 - l1) and P (S pos(l1) - x) == det(P) l1 (exact polynomial identities on the symbolically executed real function), and lemma snf-coset (explicit cofactor identities) turns this into: two atoms coincide modulo the supercell lattice iff l1 == l2 modulo D.",
+    note=TRUST + "NOT decided: atom counts and uniqueness of the trimmed cell (incl. the rejection test of TrimmedCell._run for non-tiling primitive matrices), SNF elementary steps, the count |det S| of box points (cited), primitive-cell index maps, tolerance geometry. SNF3x3 is assumed to return a unimodular P. Finding E3 (S L instead of S^T L on the SNF path) repaired by a fix: commit.",
     technique="deductive verification: symbolic execution of the Python source with abstracted per-atom data + exact identities",
     design="DESIGN.md section 5 C04"),
  "C07": dict(
